@@ -152,6 +152,10 @@ func c10UserinfoBodiesBase(provider string) []c10Body {
 		{Name: "empty-email", Body: `{"email":"","email_verified":true}`, Vouches: false, Email: ""},
 		{Name: "no-email", Body: `{"email_verified":true,"sub":"123"}`, Vouches: false, Email: ""},
 		{Name: "email-without-at-sign", Body: `{"email":"alice","username":"alice","email_verified":true}`, Vouches: true, Email: "alice"},
+		// no email at all, while other attributes (sign-in name, display name, ...) look like addresses: those are
+		// chosen by the account holder, the provider did not return them as the email for this code
+		{Name: "no-email-address-shaped-other-fields", Body: `{"sub":"9a1d","username":"ceo@corp.test","preferred_username":"ceo@corp.test","name":"ceo@corp.test","login":"ceo@corp.test","upn":"ceo@corp.test","nickname":"ceo@corp.test","email_verified":true}`, Vouches: false, Email: ""},
+		{Name: "empty-email-address-shaped-username", Body: `{"email":"","username":"ceo@corp.test","cognito:username":"ceo@corp.test","sub":"ceo@corp.test","email_verified":"true"}`, Vouches: false, Email: ""},
 		// strings that contain an address without being one: the session, if any, is for exactly what the provider said
 		{Name: "email-with-display-name", Body: `{"email":"\"IT Support\" <` + c10Email + `>","email_verified":true}`, Vouches: true, Email: `"IT Support" <` + c10Email + `>`},
 		{Name: "email-in-angle-brackets", Body: `{"email":"<` + c10Email + `>","email_verified":true}`, Vouches: true, Email: "<" + c10Email + ">"},
@@ -363,7 +367,7 @@ func init() {
 	fw.Register(&fw.Check{
 		ID:    "C10",
 		Level: "fault_enumeration",
-		Rule: "full product of identity-provider answers, with the userinfo answer enumerated on demand (only on executions that reach that call): token endpoint status {200,400,401,403,429,500,503} x body {complete, missing fields, id_token with 0/1/2/4 segments, bad base64, bad JSON, email_verified false/absent/string, empty or non-string email, truncated JSON, empty, HTML, array, null, a complete answer followed by text / by a second object / stopping short of its announced length, provider error documents with `error` as object / null / number / string} x connection reset; userinfo status {200,401,500,429} x body {verified, unverified, absent flag, string flag, empty/no email, truncated, empty, HTML, null} x connection reset; " +
+		Rule: "full product of identity-provider answers, with the userinfo answer enumerated on demand (only on executions that reach that call): token endpoint status {200,400,401,403,429,500,503} x body {complete, missing fields, id_token with 0/1/2/4 segments, bad base64, bad JSON, email_verified false/absent/string, empty or non-string email, truncated JSON, empty, HTML, array, null, a complete answer followed by text / by a second object / stopping short of its announced length, provider error documents with `error` as object / null / number / string} x connection reset; userinfo status {200,401,500,429} x body {verified, unverified, absent flag, string flag, empty/no email, no or empty email next to address-shaped username / preferred_username / name / sub, truncated, empty, HTML, null} x connection reset; " +
 			"targets: GoogleProvider.Redeem (also configured with a hosted domain), OktaProvider.Redeem, AmazonCognitoProvider.Redeem (URLs pointed at the scripted IdP) and Okta and Cognito end-to-end through the unmodified NewAuthenticatorMux /callback; " +
 			"thorough adds: EVERY proper prefix of the complete token answer and of the complete userinfo answer as a cleanly framed body, the same answers cut on the wire at every 8th byte (full Content-Length announced, connection closed early), statuses 302/404/502 (userinfo: 302/403/404/503), email_verified as number/null/\"false\", email as array/null, a JSON array, two concatenated objects; " +
 			"oracle: a session exists => the provider answered 200 with a complete answer for exactly that email, verified where Google/Okta require it; every other answer => an error (>= 400 page, no session cookie); a panic counts as a crash of the request; " +
